@@ -3,6 +3,7 @@ package main
 // Evaluation of spec expressions over symbolic states.
 
 import (
+	"strconv"
 	"fmt"
 	"go/types"
 	"strings"
@@ -246,7 +247,38 @@ func (ev *SpecEval) contextPkg() *ssa.Package {
 
 // lookupSSAName: "#x" = the phi carrying source variable x at the innermost enclosing cut loop head,
 // "$ri" = the range index phi
+// "#x~kindN" adds a fallback for the case that the local was renamed: the N-th loop-carried variable of that kind (str, int, bool,
+// slice, ref) at the cut loop head, in declaration order. A wrong guess cannot make a proof succeed wrongly - the invariant
+// is a checked obligation - it only keeps a pure rename from raising an alarm.
 func (fr *Frame) lookupSSAName(name string) (Value, types.Type, bool) {
+	if k := strings.Index(name, "~"); k > 0 {
+		if v, t, ok := fr.lookupSSAName(name[:k]); ok {
+			return v, t, true
+		}
+		hint := name[k+1:]
+		kind := strings.TrimRight(hint, "0123456789")
+		n, _ := strconv.Atoi(hint[len(kind):])
+		if fr.curLoopHead == nil {
+			return nil, nil, false
+		}
+		for _, ins := range fr.curLoopHead.Instrs {
+			phi, ok := ins.(*ssa.Phi)
+			if !ok {
+				break
+			}
+			if phi.Comment == "rangeindex" || kindOf(phi.Type()) != kind {
+				continue
+			}
+			if n == 0 {
+				if v, have := fr.env[phi]; have {
+					return v, phi.Type(), true
+				}
+				return nil, nil, false
+			}
+			n--
+		}
+		return nil, nil, false
+	}
 	want := strings.TrimLeft(name, "#$")
 	if name == "$ri" {
 		want = "rangeindex"
